@@ -305,3 +305,345 @@ theorem adv_report {cfg : Cfg} (wf : WFCfg cfg) (g : G) (i : Nat) (hi : i ∈ g.
     all_goals simpa [report, terminal] using Adv.refl g
 
 end MaestroVerif.Exec
+
+namespace MaestroVerif.Exec
+open MaestroVerif.Gen
+
+theorem adv_reports {cfg : Cfg} (wf : WFCfg cfg) : ∀ (rs : List (Nat × Option State)) (g : G),
+    (rs.map (·.1)).Nodup → (∀ r, r ∈ rs → r.1 ∈ g.inProgress) →
+    Adv g (rs.foldl (fun g r => report cfg g r.1 r.2) g) := by
+  intro rs
+  induction rs with
+  | nil => intro g _ _; exact Adv.refl g
+  | cons r rest ih =>
+    intro g hn hm
+    simp only [List.foldl_cons]
+    simp only [List.map_cons, List.nodup_cons] at hn
+    have h1 := adv_report wf g r.1 (hm r (by simp)) r.2
+    refine h1.trans (ih _ hn.2 ?_)
+    intro r' hr'
+    have hne : r'.1 ≠ r.1 := by
+      intro e; apply hn.1; rw [← e]; exact List.mem_map.mpr ⟨r', hr', rfl⟩
+    exact report_inProgress_other cfg g r.1 r.2 hne (hm r' (by simp [hr']))
+
+theorem adv_launch {cfg : Cfg} (wf : WFCfg cfg) : ∀ (k : Nat) (g : G), Adv g (launch cfg k g) := by
+  intro k
+  induction k with
+  | zero => intro g; exact Adv.refl g
+  | succ k ih =>
+    intro g
+    unfold launch
+    split
+    · exact Adv.refl g
+    · rename_i i rest hr
+      simp only
+      split
+      · refine Adv.trans ?_ (ih _)
+        refine ⟨fun a h => ?_, fun a h => ?_, fun a x h => h⟩
+        · unfold Touched at h ⊢
+          simp only [setStatus, mem_ins]
+          rw [hr] at h
+          simp only [List.mem_cons] at h
+          grind
+        · simp only [setStatus, upd] at h
+          by_cases e : a = i
+          · exact Or.inr (Touched.x (by simp [setStatus, e]))
+          · simp only [e, ↓reduceIte] at h; exact Or.inl h
+      · obtain ⟨a1, t1⟩ := adv_executeRecord wf { g with ready := rest } i false
+        refine Adv.trans ?_ (ih _)
+        refine ⟨fun a h => ?_, fun a h => ?_, fun a x h => a1.deps a x h⟩
+        · by_cases e : a = i
+          · subst e; exact t1
+          · apply a1.touched
+            unfold Touched at h ⊢
+            rw [hr] at h
+            simp only [List.mem_cons] at h
+            grind
+        · rcases a1.status a h with h' | h'
+          · exact Or.inl h'
+          · exact Or.inr h'
+
+theorem adv_poll {cfg : Cfg} (wf : WFCfg cfg) {g : G} {p : PollIn} (hp : WFPoll g p) :
+    Adv g (poll cfg g p).1 := by
+  unfold poll
+  simp only
+  by_cases hd : cfg.dry = true
+  · simp only [hd, ↓reduceIte]
+    exact (adv_stage cfg g).trans (adv_launch wf _ _)
+  · have hd' : cfg.dry = false := by simpa using hd
+    simp only [hd', Bool.false_eq_true, ↓reduceIte]
+    have he := adv_emit g (Ev.check g.inProgress)
+    cases hc : p.code with
+    | ERROR => simp only; exact he
+    | NOJOBS =>
+      simp only
+      exact he.trans ((adv_stage cfg _).trans (adv_launch wf _ _))
+    | OK =>
+      simp only
+      have hr := adv_reports wf p.reports (emit g (Ev.check g.inProgress)) hp.nodup
+        (by intro r hr; simpa [emit] using hp.mem r hr)
+      exact he.trans (hr.trans ((adv_sweeps _).trans ((adv_stage cfg _).trans (adv_launch wf _ _))))
+
+theorem adv_cancel (g : G) : Adv g (cancel g) :=
+  ⟨fun _ h => h, fun _ h => Or.inl h, fun _ _ h => h⟩
+
+/-- **Every reachable state**: a step that is in none of the bookkeeping sets
+was never touched (its status is still `INITIALIZED`) and every dependency set
+is a subset of the step's parents. -/
+theorem InvU_reachable {cfg : Cfg} (wf : WFCfg' cfg) {g : G} (h : Reachable cfg g) : InvU cfg g := by
+  induction h with
+  | init => exact invU_init cfg
+  | poll p _ hp ih => exact ih.adv (adv_poll wf.toWFCfg hp)
+  | cancel _ ih => exact ih.adv (adv_cancel _)
+
+end MaestroVerif.Exec
+
+namespace MaestroVerif.Exec
+open MaestroVerif.Gen
+
+/-! ### the staging loop queues every eligible step -/
+
+theorem stageOne_ready_mono (g : G) (key x : Nat) (h : x ∈ g.ready) : x ∈ (stageOne g key).ready := by
+  unfold stageOne
+  split
+  · exact h
+  · split
+    · simp only
+      split
+      · split
+        · exact h
+        · simp [h]
+      · exact h
+    · exact h
+
+theorem stage_ready_mono (cfg : Cfg) (g : G) (x : Nat) (h : x ∈ g.ready) : x ∈ (stage cfg g).ready := by
+  unfold stage
+  generalize List.range (cfg.n + 1) = keys
+  induction keys generalizing g with
+  | nil => exact h
+  | cons k ks ih => simp only [List.foldl_cons]; exact ih _ (stageOne_ready_mono g k x h)
+
+/-- the body of the staging loop, run for a step that was never touched and whose
+parents are all complete, puts it in the queue -/
+theorem stageOne_queues_eligible {cfg : Cfg} {g : G} {k : Nat} (hc : k ∉ g.completed)
+    (hs : g.status k = .INITIALIZED) (hd : ∀ x, x ∈ g.deps k → x ∈ g.completed) :
+    k ∈ (stageOne g k).ready := by
+  unfold stageOne
+  simp only [hc, ↓reduceIte, hs, beq_self_eq_true]
+  have hempty : (g.deps k).filter (fun x => !(g.completed.contains x)) = [] := by
+    apply List.filter_eq_nil_iff.mpr
+    intro x hx
+    simp [hd x hx]
+  simp only [hempty, List.isEmpty_nil, ↓reduceIte]
+  split
+  · assumption
+  · simp
+
+theorem stage_queues_eligible_aux {cfg : Cfg} {k : Nat} : ∀ (keys : List Nat) (g : G),
+    k ∈ keys → k ∉ g.completed → g.status k = .INITIALIZED →
+    (∀ x, x ∈ g.deps k → x ∈ g.completed) → k ∈ (keys.foldl stageOne g).ready := by
+  intro keys
+  induction keys with
+  | nil => intro g h; simp at h
+  | cons a rest ih =>
+    intro g hk hc hs hd
+    simp only [List.foldl_cons]
+    obtain ⟨s1, _, _, _, _, s6⟩ := stageOne_sets g a
+    by_cases e : a = k
+    · subst e
+      have := stageOne_queues_eligible (cfg := cfg) hc hs hd
+      -- the remaining keys never remove anything from the queue
+      have mono : ∀ (ks : List Nat) (g1 : G), a ∈ g1.ready → a ∈ (ks.foldl stageOne g1).ready := by
+        intro ks
+        induction ks with
+        | nil => intro g1 h; exact h
+        | cons b bs ih2 => intro g1 h; simp only [List.foldl_cons]; exact ih2 _ (stageOne_ready_mono g1 b a h)
+      exact mono rest _ this
+    · have hk' : k ∈ rest := by
+        rcases List.mem_cons.mp hk with h | h
+        · exact absurd h.symm e
+        · exact h
+      apply ih _ hk'
+      · rw [s1]; exact hc
+      · rw [s6]; exact hs
+      · intro x hx
+        rw [s1]
+        exact hd x ((adv_stageOne g a).deps k x hx)
+
+/-- **The staging loop queues every untouched step whose parents are complete.** -/
+theorem stage_queues_eligible {cfg : Cfg} {g : G} (hU : InvU cfg g) {k : Nat} (hk : k ≤ cfg.n)
+    (hc : k ∉ g.completed) (hs : g.status k = .INITIALIZED)
+    (hp : ∀ p, p ∈ cfg.parents k → p ∈ g.completed) : k ∈ (stage cfg g).ready := by
+  unfold stage
+  apply stage_queues_eligible_aux (cfg := cfg) _ g (by simp; omega) hc hs
+  intro x hx
+  exact hp x (hU.depsSub k x hx)
+
+/-! ### a minimal unresolved step -/
+
+theorem exists_minimal {cfg : Cfg} (wf : WFCfg cfg) (ha : Dag.Acyclic cfg.dag) (S : Nat → Prop)
+    {k : Nat} (hk : S k) : ∃ m, S m ∧ ∀ p, p ∈ cfg.parents m → ¬ S p := by
+  obtain ⟨l, _, _, hrank⟩ := C14.C14_toposort cfg.dag wf.dagwf ha
+  have key : ∀ r k, l.idxOf k = r → S k → ∃ m, S m ∧ ∀ p, p ∈ cfg.parents m → ¬ S p := by
+    intro r
+    induction r using Nat.strongRecOn with
+    | _ r ih =>
+      intro k hr hk
+      by_cases hex : ∃ p, p ∈ cfg.parents k ∧ S p
+      · obtain ⟨p, hp, hsp⟩ := hex
+        have : l.idxOf p < l.idxOf k := hrank p k ((wf.par p k).mpr hp)
+        exact ih (l.idxOf p) (by omega) p rfl hsp
+      · exact ⟨k, hk, fun p hp hsp => hex ⟨p, hp, hsp⟩⟩
+  exact key _ k rfl hk
+
+end MaestroVerif.Exec
+
+namespace MaestroVerif.Exec
+open MaestroVerif.Gen
+
+/-! ### the measure: how many steps are not resolved yet -/
+
+def Resolved (g : G) (k : Nat) : Prop := k ∈ g.completed ∨ k ∈ g.failed ∨ k ∈ g.cancelled
+
+def resolvedB (g : G) (k : Nat) : Bool :=
+  g.completed.contains k || g.failed.contains k || g.cancelled.contains k
+
+theorem resolvedB_iff (g : G) (k : Nat) : resolvedB g k = true ↔ Resolved g k := by
+  simp [resolvedB, Resolved, or_assoc]
+
+def unresolved (cfg : Cfg) (g : G) : Nat :=
+  ((List.range (cfg.n + 1)).filter (fun k => !resolvedB g k)).length
+
+theorem Grow.resolved {g g' : G} (h : Grow g g') {k : Nat} (hk : Resolved g k) : Resolved g' k := by
+  rcases hk with h1 | h1 | h1
+  · exact Or.inl (h.completed k h1)
+  · exact Or.inr (Or.inl (h.failed k h1))
+  · exact Or.inr (Or.inr (h.cancelled k h1))
+
+theorem filter_length_le {p q : Nat → Bool} : ∀ (l : List Nat), (∀ k, k ∈ l → q k = true → p k = true) →
+    (l.filter q).length ≤ (l.filter p).length := by
+  intro l
+  induction l with
+  | nil => intro _; simp
+  | cons a as ih =>
+    intro h
+    have ih' := ih (fun k hk => h k (List.mem_cons_of_mem _ hk))
+    by_cases hq : q a = true
+    · have hp := h a (by simp) hq
+      simp [List.filter_cons, hq, hp]; omega
+    · by_cases hp : p a = true
+      · simp [List.filter_cons, hq, hp]; omega
+      · simp [List.filter_cons, hq, hp]; omega
+
+theorem filter_length_lt {p q : Nat → Bool} : ∀ (l : List Nat), (∀ k, k ∈ l → q k = true → p k = true) →
+    (∃ i, i ∈ l ∧ p i = true ∧ q i = false) → (l.filter q).length < (l.filter p).length := by
+  intro l
+  induction l with
+  | nil => intro _ h; obtain ⟨i, hi, _⟩ := h; simp at hi
+  | cons a as ih =>
+    intro h hex
+    have hle := filter_length_le as (fun k hk => h k (List.mem_cons_of_mem _ hk))
+    obtain ⟨i, hi, hpi, hqi⟩ := hex
+    by_cases hq : q a = true
+    · have hp := h a (by simp) hq
+      have hia : i ≠ a := by intro e; subst e; rw [hq] at hqi; cases hqi
+      have hi' : i ∈ as := by
+        rcases List.mem_cons.mp hi with e | e
+        · exact absurd e hia
+        · exact e
+      have := ih (fun k hk => h k (List.mem_cons_of_mem _ hk)) ⟨i, hi', hpi, hqi⟩
+      simp [List.filter_cons, hq, hp]; omega
+    · by_cases hp : p a = true
+      · simp [List.filter_cons, hq, hp]; omega
+      · have hia : i ≠ a := by intro e; subst e; exact hp hpi
+        have hi' : i ∈ as := by
+          rcases List.mem_cons.mp hi with e | e
+          · exact absurd e hia
+          · exact e
+        have := ih (fun k hk => h k (List.mem_cons_of_mem _ hk)) ⟨i, hi', hpi, hqi⟩
+        simp [List.filter_cons, hq, hp]; omega
+
+theorem unresolved_le {cfg : Cfg} {g g' : G} (h : Grow g g') : unresolved cfg g' ≤ unresolved cfg g := by
+  unfold unresolved
+  apply filter_length_le
+  intro k _ hk
+  simp only [Bool.not_eq_true', ← Bool.not_eq_true] at hk ⊢
+  intro hr
+  exact hk ((resolvedB_iff g' k).mpr (h.resolved ((resolvedB_iff g k).mp hr)))
+
+theorem unresolved_lt {cfg : Cfg} {g g' : G} (h : Grow g g') {i : Nat} (hi : i ≤ cfg.n)
+    (h0 : ¬ Resolved g i) (h1 : Resolved g' i) : unresolved cfg g' < unresolved cfg g := by
+  unfold unresolved
+  apply filter_length_lt
+  · intro k _ hk
+    simp only [Bool.not_eq_true', ← Bool.not_eq_true] at hk ⊢
+    intro hr
+    exact hk ((resolvedB_iff g' k).mpr (h.resolved ((resolvedB_iff g k).mp hr)))
+  · refine ⟨i, by simp; omega, ?_, ?_⟩
+    · simp only [Bool.not_eq_true', ← Bool.not_eq_true]
+      exact fun hr => h0 ((resolvedB_iff g i).mp hr)
+    · simp [(resolvedB_iff g' i).mpr h1]
+
+theorem unresolved_zero_iff (cfg : Cfg) (g : G) :
+    unresolved cfg g = 0 ↔ ∀ k, k ≤ cfg.n → Resolved g k := by
+  unfold unresolved
+  rw [List.length_eq_zero_iff, List.filter_eq_nil_iff]
+  constructor
+  · intro h k hk
+    have := h k (by simp; omega)
+    simp only [Bool.not_eq_true, Bool.not_eq_false'] at this
+    exact (resolvedB_iff g k).mp this
+  · intro h k hk
+    simp only [List.mem_range] at hk
+    simp [(resolvedB_iff g k).mpr (h k (by omega))]
+
+/-! ### decisive answers -/
+
+/-- a scheduler answer that ends the job for good (no restart, no re-queue) -/
+def decisiveState (st : Option State) : Prop :=
+  st = some .FINISHED ∨ st = some .FAILED ∨ st = some .UNKNOWN ∨ st = some .CANCELLED
+
+/-- waiting for a sweep or already resolved -/
+def Settled (g : G) (k : Nat) : Prop := k ∈ g.completed ∨ k ∈ g.cleanup ∨ k ∈ g.cancelQ
+
+theorem report_settles {cfg : Cfg} (wf : WFCfg cfg) (g : G) (i : Nat) {st : Option State}
+    (hs : decisiveState st) : Settled (report cfg g i st) i := by
+  have hself := self_mem_subtree wf i
+  rcases hs with h | h | h | h <;> subst h <;>
+    simp only [report, terminal, setStatus, ↓reduceIte, Settled, mem_ins, mem_insAll] <;> simp [hself]
+
+theorem report_settled_mono {cfg : Cfg} (g : G) (i : Nat) {st : Option State}
+    (hs : decisiveState st) {k : Nat} (hk : Settled g k) : Settled (report cfg g i st) k := by
+  rcases hs with h | h | h | h <;> subst h <;>
+    simp only [report, terminal, setStatus, ↓reduceIte, Settled, mem_ins, mem_insAll] <;>
+    unfold Settled at hk <;> grind
+
+theorem reports_settle {cfg : Cfg} (wf : WFCfg cfg) : ∀ (rs : List (Nat × Option State)) (g : G),
+    (∀ r, r ∈ rs → decisiveState r.2) →
+    (∀ k, Settled g k → Settled (rs.foldl (fun g r => report cfg g r.1 r.2) g) k) ∧
+    (∀ r, r ∈ rs → Settled (rs.foldl (fun g r => report cfg g r.1 r.2) g) r.1) := by
+  intro rs
+  induction rs with
+  | nil => intro g _; exact ⟨fun _ h => h, fun r hr => by simp at hr⟩
+  | cons r rest ih =>
+    intro g hd
+    simp only [List.foldl_cons]
+    obtain ⟨m, s⟩ := ih (report cfg g r.1 r.2) (fun r' hr' => hd r' (List.mem_cons_of_mem _ hr'))
+    have hdr := hd r (by simp)
+    refine ⟨fun k hk => m k (report_settled_mono g r.1 hdr hk), fun r' hr' => ?_⟩
+    rcases List.mem_cons.mp hr' with e | e
+    · subst e; exact m _ (report_settles wf g r'.1 hdr)
+    · exact s r' e
+
+theorem sweeps_resolves (g : G) {k : Nat} (h : Settled g k) : Resolved (sweeps g) k := by
+  rw [sweeps_eq]
+  have mf := markFailed_spec g.cleanup g
+  have mc := markCancelled_spec g.cancelQ (markFailed g.cleanup g)
+  unfold Resolved
+  simp only [mc.completed, mf.completed, mc.failed]
+  rcases h with h | h | h
+  · exact Or.inl h
+  · exact Or.inr (Or.inl ((mf.failed k).mpr (Or.inl h)))
+  · exact Or.inr (Or.inr ((mc.cancelled k).mpr (Or.inl h)))
+
+end MaestroVerif.Exec
